@@ -133,8 +133,32 @@ def body_wo_doc(fn: ast.FunctionDef) -> list[ast.stmt]:
     return b
 
 
+class _Inline(ast.NodeTransformer):
+    def __init__(self, env):
+        self.env = env
+
+    def visit_Name(self, node):
+        if isinstance(node.ctx, ast.Load) and node.id in self.env:
+            import copy
+
+            return copy.deepcopy(self.env[node.id])
+        return node
+
+
 def single_return(fn: ast.FunctionDef) -> ast.expr:
+    """The expression a function returns.  Accepted shapes: `return e`, or a straight line of plain local assignments
+    `x = e1; y = e2(x); return e3(x, y)` (inlined -- the translated sub-language has no side effects), so that naming an
+    intermediate value is not mistaken for a change of behaviour.  Anything else (branches, loops, calls as statements,
+    augmented or attribute assignments) is not translated."""
+    import copy
+
     b = body_wo_doc(fn)
-    if len(b) == 1 and isinstance(b[0], ast.Return) and b[0].value is not None:
-        return b[0].value
+    env = {}
+    for st in b[:-1]:
+        if isinstance(st, ast.Assign) and len(st.targets) == 1 and isinstance(st.targets[0], ast.Name):
+            env[st.targets[0].id] = _Inline(dict(env)).visit(copy.deepcopy(st.value))
+        else:
+            raise Untranslatable(f"{fn.name}: body is not a single return")
+    if b and isinstance(b[-1], ast.Return) and b[-1].value is not None:
+        return ast.fix_missing_locations(_Inline(env).visit(copy.deepcopy(b[-1].value))) if env else b[-1].value
     raise Untranslatable(f"{fn.name}: body is not a single return")
